@@ -63,3 +63,56 @@ Proof.
     - rewrite (Hrest _ G). cbn [parse_events]. exact Bw. }
   rewrite E1, E2, E3, E4, E5. reflexivity.
 Qed.
+
+(* the same with ANY simfile template the caller supplies, under the property's own assumption on templates: it supplies no
+   delay or warp of its own, and its version tag is well-formed (whether it lies in the split-timing range does not matter:
+   no chart of the result carries timing) *)
+Theorem sm_to_ssc_timing_any_template sf charts tmpl_sf tmpl_chart out cs :
+  NoDupKeys sf -> (forall c, List.In c charts -> NoDupKeys c) ->
+  sm_to_ssc sf charts tmpl_sf tmpl_chart = COk (out, cs) ->
+  has kBPMS sf = true -> has kSTOPS sf = true -> has kOFFSET sf = true -> has kVERSION sf = false ->
+  let base := fst (base_of Tables.blank_ssc_simfile tmpl_sf) in
+  let nbase := length (snd (base_of Tables.blank_ssc_simfile tmpl_sf)) in
+  (exists b, version_ok (get kVERSION base) = TOk b) ->
+  parse_events (attr base kDELAYS None) = Got [] ->
+  parse_events (match get kWARPS base with Some v => v | None => None end) = Got [] ->
+  chart_has_timing (chart_tmpl_of Tables.blank_ssc_chart tmpl_chart) = false ->
+  NoDupKeys (chart_tmpl_of Tables.blank_ssc_chart tmpl_chart) ->
+  (forall c key, List.In c charts -> List.In key Tables.chart_timing_properties -> get key c = None) ->
+  forall i c c', nth_error charts i = Some c -> nth_error cs (nbase + i) = Some c' ->
+    timing_data KSSC out CSSC c' = timing_data KSM sf CSM c.
+Proof.
+  intros Hnd Hc H Hb Hs Ho Hv base nbase [bv Bv] Bd Bw Hct Hctn Hkeys i c c' Hi Hi'.
+  assert (Hneg : sm_negative_timing sf = COk false).
+  { unfold sm_to_ssc in H. destruct (sm_negative_timing sf) as [[|]| | | |]; try discriminate. reflexivity. }
+  destruct (sm_to_ssc_spec sf charts tmpl_sf tmpl_chart Hnd Hc Hneg Hctn) as (out' & cs' & E & Hsame & Hrest & Hlen & Hcharts).
+  rewrite H in E. inversion E; subst out' cs. clear E. fold base in Hrest.
+  destruct (Hcharts i c Hi) as (c'' & Hi'' & Csame & Crest).
+  unfold nbase in Hi'. rewrite nth_error_app2 in Hi' by lia. replace (length _ + i - length _)%nat with i in Hi' by lia.
+  rewrite Hi' in Hi''. inversion Hi''; subst c''. clear Hi''.
+  assert (Hnt : chart_has_timing c' = false).
+  { unfold chart_has_timing in *. apply not_true_is_false. intro X. apply existsb_exists in X as [key [Hk Ht]].
+    rewrite (Crest key (Hkeys c key (nth_error_In _ _ Hi) Hk)) in Ht.
+    assert (Y : existsb (fun key => truthy (get key (chart_tmpl_of Tables.blank_ssc_chart tmpl_chart))) Tables.chart_timing_properties = true)
+      by (apply existsb_exists; exists key; auto). congruence. }
+  unfold timing_data, timing_source. rewrite (Hrest kVERSION (has_false_get _ _ Hv)), Bv, Hnt.
+  assert (Esrc : (if bv then TOk (if false then SrcChart else SrcSimfile) else TOk SrcSimfile) = TOk SrcSimfile) by (destruct bv; reflexivity).
+  match goal with |- context [match ?X with TOk _ => _ | _ => _ end] => replace X with (@TOk source SrcSimfile) by (destruct bv; reflexivity) end.
+  cbn [src_props].
+  destruct (has_true_get _ _ Hb) as [vb Gb]. destruct (has_true_get _ _ Hs) as [vs Gs]. destruct (has_true_get _ _ Ho) as [vo Go].
+  unfold timing_data_of.
+  assert (E1 : attr out kBPMS None = attr sf kBPMS None) by (apply attr_plain_eq; rewrite Gb; apply Hsame; exact Gb).
+  assert (E2 : attr out kSTOPS None = attr sf kSTOPS (Some kFREEZES)).
+  { unfold attr. rewrite Hs. cbn [negb andb]. rewrite (Hsame _ _ Gs), Gs. reflexivity. }
+  assert (E5 : attr out kOFFSET None = attr sf kOFFSET None) by (apply attr_plain_eq; rewrite Go; apply Hsame; exact Go).
+  assert (E3 : parse_events (attr out kDELAYS None) = parse_events (attr sf kDELAYS None)).
+  { destruct (get kDELAYS sf) as [v|] eqn:G.
+    - rewrite (attr_plain_eq sf out kDELAYS); [reflexivity|]. rewrite G. apply Hsame. exact G.
+    - unfold attr at 2. rewrite G. cbn [parse_events]. rewrite <- Bd. f_equal. apply attr_plain_eq. apply Hrest. exact G. }
+  assert (E4 : parse_events (match get kWARPS out with Some v => v | None => None end) =
+               parse_events (match get kWARPS sf with Some v => v | None => None end)).
+  { destruct (get kWARPS sf) as [v|] eqn:G.
+    - rewrite (Hsame _ _ G). reflexivity.
+    - rewrite (Hrest _ G). cbn [parse_events]. exact Bw. }
+  rewrite E1, E2, E3, E4, E5. reflexivity.
+Qed.
